@@ -70,6 +70,104 @@ impl Drop for HNode {
     }
 }
 
+/// A node with a large payload (the recursion's frame must not grow with it).
+pub struct FatNode {
+    pad: [u8; 768],
+    next: AtomicRc<FatNode>,
+}
+unsafe impl RcObject for FatNode {
+    fn pop_edges(&mut self, out: &mut Vec<Rc<Self>>) {
+        out.push(self.next.take());
+    }
+}
+impl Drop for FatNode {
+    fn drop(&mut self) {
+        let marker = 0u8;
+        MIN_SP.fetch_min(&marker as *const u8 as usize, Relaxed);
+        DROPS.fetch_add(1, Relaxed);
+        std::hint::black_box(&self.pad);
+    }
+}
+
+/// A wide object whose buckets are edges of another type (released by its destructor).
+pub struct Table {
+    buckets: Vec<AtomicRc<SNode>>,
+    next: AtomicRc<Table>,
+}
+unsafe impl RcObject for Table {
+    fn pop_edges(&mut self, out: &mut Vec<Rc<Self>>) {
+        out.push(self.next.take());
+    }
+}
+impl Drop for Table {
+    fn drop(&mut self) {
+        DROPS.fetch_add(1, Relaxed);
+        let _ = self.buckets.len();
+    }
+}
+
+/// A thread releases a wide structure, collects a few times and exits while thousands of bags are
+/// still queued; the main thread finishes the reclamation.
+fn wide_exit_child(n: usize, stack: usize) {
+    let h = std::thread::Builder::new()
+        .stack_size(stack)
+        .spawn(move || {
+            let t = {
+                let g = circ::cs();
+                let buckets: Vec<AtomicRc<SNode>> = (0..n).map(|_| AtomicRc::from(snode())).collect();
+                let _ = &g;
+                Rc::new(Table { buckets, next: AtomicRc::null() })
+            };
+            churn(4);
+            drop(t);
+            churn(8);
+        })
+        .expect("spawn");
+    let joined = h.join().is_ok();
+    let total = n + 1;
+    let bound = 400 + total / 4;
+    let mut rounds = 0;
+    while DROPS.load(SeqCst) < total && rounds < bound {
+        churn(1);
+        rounds += 1;
+    }
+    println!(
+        "{}",
+        J::obj().set("type", "c07child").set("n", total).set("drops", if joined { DROPS.load(SeqCst) } else { 0 }).set("rounds", rounds).set("peak_stack", 0u64).to_string()
+    );
+}
+
+fn fat_child(n: usize, stack: usize) {
+    let h = std::thread::Builder::new()
+        .stack_size(stack)
+        .spawn(move || {
+            let base_marker = 0u8;
+            let base = &base_marker as *const u8 as usize;
+            let head = {
+                let g = circ::cs();
+                let mut head: Rc<FatNode> = Rc::null();
+                for i in 0..n {
+                    let nd = Rc::new(FatNode { pad: [i as u8; 768], next: AtomicRc::null() });
+                    nd.as_ref().unwrap().next.store(head, SeqCst, &g);
+                    head = nd;
+                }
+                head
+            };
+            churn(8);
+            drop(head);
+            let bound = 40 * (2 + n / 1024) + 300;
+            let mut rounds = 0;
+            while DROPS.load(SeqCst) < n && rounds < bound {
+                churn(1);
+                rounds += 1;
+            }
+            let peak = base.saturating_sub(MIN_SP.load(SeqCst));
+            println!("{}", J::obj().set("type", "c07child").set("n", n).set("drops", DROPS.load(SeqCst)).set("rounds", rounds).set("peak_stack", peak).to_string());
+        })
+        .expect("spawn");
+    let _ = h.join();
+}
+
 fn backlog_child(lists: usize, len: usize, stack: usize) {
     use std::sync::atomic::AtomicBool;
     static PINNED: AtomicBool = AtomicBool::new(false);
@@ -159,6 +257,12 @@ pub fn c07_child(shape: &str, n: usize, stack: usize) {
     if shape == "backlog" {
         // n = lists * 1200
         return backlog_child(n / 1200, 1200, stack);
+    }
+    if shape == "fatchain" {
+        return fat_child(n, stack);
+    }
+    if shape == "wide-exit" {
+        return wide_exit_child(n, stack);
     }
     let shape = shape.to_string();
     let h = std::thread::Builder::new()
@@ -330,7 +434,7 @@ pub fn c07(thorough: bool, shard: u64, nshards: u64) -> ProcOut {
     } else {
         (vec![1 << 20, 2 << 20, 8 << 20], vec![64 << 10, 128 << 10, 256 << 10, 512 << 10])
     };
-    let mut cases: Vec<(&str, usize)> = vec![("chain", 2_000), ("chain", 100_000), ("tree", 65_535), ("comb", 100_000), ("caterpillar", 300_000), ("dag", 50_000), ("backlog", 720_000)];
+    let mut cases: Vec<(&str, usize)> = vec![("chain", 2_000), ("chain", 100_000), ("tree", 65_535), ("comb", 100_000), ("caterpillar", 300_000), ("dag", 50_000), ("backlog", 720_000), ("fatchain", 20_000), ("wide-exit", 400_000)];
     if thorough {
         cases.push(("chain", 1_000_000));
         cases.push(("chain", 4_000_000));
@@ -339,6 +443,8 @@ pub fn c07(thorough: bool, shard: u64, nshards: u64) -> ProcOut {
         cases.push(("dag", 500_000));
         cases.push(("caterpillar", 2_000_000));
         cases.push(("backlog", 1_800_000));
+        cases.push(("fatchain", 200_000));
+        cases.push(("wide-exit", 1_500_000));
     } else {
         cases.push(("chain", 1_000_000));
     }
@@ -423,6 +529,21 @@ fn tnode() -> Rc<TNode> {
     Rc::new(TNode { next: AtomicRc::null(), back: AtomicWeak::null() })
 }
 
+pub struct WideT {
+    buckets: Vec<AtomicRc<TNode>>,
+    next: AtomicRc<WideT>,
+}
+unsafe impl RcObject for WideT {
+    fn pop_edges(&mut self, out: &mut Vec<Rc<Self>>) {
+        out.push(self.next.take());
+    }
+}
+impl Drop for WideT {
+    fn drop(&mut self) {
+        let _ = self.buckets.len();
+    }
+}
+
 struct Shared20 {
     cell: AtomicRc<TNode>,
     wcell: AtomicWeak<TNode>,
@@ -435,9 +556,9 @@ struct TlsObj {
     created: std::cell::Cell<usize>,
 }
 
-pub const C20_CASES: [&str; 14] = [
+pub const C20_CASES: [&str; 15] = [
     "cs", "nested-cs", "new-drop", "drop-captured", "cell-ops", "upgrade", "flush", "reactivate", "reactivate_after", "chain-drop", "defer-many", "cs-then-new-in-guard",
-    "nested-reactivate", "body-nested-reactivate",
+    "nested-reactivate", "body-nested-reactivate", "exit-with-backlog",
 ];
 
 impl Drop for TlsObj {
@@ -551,7 +672,7 @@ impl Drop for TlsObj {
                     drop(r);
                 }
             }
-            13 => {
+            13 | 14 => {
                 for _ in 0..10 {
                     let r = tnode();
                     created += 1;
@@ -626,6 +747,16 @@ pub fn c20_child(case: u32, order: u32, threads: usize, main_exit: bool) {
                     let o = mk(&sh2);
                     TLS_B.with(|t| *t.borrow_mut() = Some(o));
                 }
+            }
+            if case == 14 && order != 2 {
+                // the thread releases a wide structure and leaves while most of its garbage is still queued
+                let n = 120_000;
+                let buckets: Vec<AtomicRc<TNode>> = (0..n).map(|_| AtomicRc::from(tnode())).collect();
+                CREATED.fetch_add(n, SeqCst);
+                let t = Rc::new(WideT { buckets, next: AtomicRc::null() });
+                churn(3);
+                drop(t);
+                churn(4);
             }
             if case == 13 && order != 2 {
                 // the thread body reactivates nested guards, then leaves garbage behind
